@@ -148,13 +148,17 @@ func elementHeaderRules(c *Ctx) int {
 				k1, c1 := core.ConstInt(shl.Y)
 				k2, c2 := core.ConstInt(sub.Y)
 				if c1 && c2 && k1 == 4 && k2 == 1 {
-					okW = true
+					// the minuend is the value length itself (a length masked to the nibble *before*
+					// the subtraction turns 16 into 0xFF, i.e. the reserved id 15)
+					if lc, isCall := core.StripConv(sub.X).(*ssa.Call); isCall && core.BuiltinName(lc) == "len" {
+						okW = true
+					}
 				}
 			}
 		}
 	}
 	n++
-	r.Add("BITS.elem", core.FuncName(w), "one-byte form: header byte = id<<4 | (len-1)", p.Position(w.Pos()), okW, "no store of id<<4 | (uint8(len)-1)")
+	r.Add("BITS.elem", core.FuncName(w), "one-byte form: header byte = id<<4 | (len-1)", p.Position(w.Pos()), okW, "no store of id<<4 | (uint8(len(value))-1)")
 	return n
 }
 
